@@ -191,4 +191,3 @@ func ages(np int, age func(int) uint32) []uint32 {
 	}
 	return out
 }
-
